@@ -858,6 +858,8 @@ func (m *models) advance(d value) {
 		}
 		t.active = false
 		t.fire()
+		// let the woken threads run at the instant their timer fired
+		m.drain()
 	}
 	m.now = target
 	m.gcTimers()
